@@ -102,10 +102,11 @@ class Elf(BinFormat):
                 for sht in range(n):
                     S = Shdr(f, offset, lbe, x64)
                     offset += l
-                    if S.sh_type in Consts.All["sh_type"].keys():
-                        self.Shdr.append(S)
-                    else:
+                    if not S.sh_type in Consts.All["sh_type"].keys():
                         logger.verbose("unknown sh_type: %d" % S.sh_type)
+                    # sections of unknown type are kept: e_shstrndx, sh_link and
+                    # st_shndx are indices into the full section header table.
+                    self.Shdr.append(S)
             except Exception:
                 logger.verbose("exception raised while parsing section(s)")
 
